@@ -17,3 +17,11 @@ GROUPS += [
  dict(_W, name='wrap_opus_encode_float', entry='h_opus_encode_float', functions=['opus_encode_float', 'frame_size_select'], what='opus_encode_float: samples passed through unchanged'),
 ]
 META = {'cex': {'self': True, 'timeout': 600}}
+
+# shared with C11 (same TU, same harness): only the assertions named in 'focus' are this property's; the others are decided under C11
+import copy as _copy
+from proofs import reg_C11 as _reg_C11
+for _g in _reg_C11.GROUPS:
+    if _g['name'] == 'encode_native_decisions_fs48000':
+        _h = _copy.deepcopy(_g); _h.pop('prop', None); _h['focus'] = ['sample precision', 'silence detector uses']; _h['what'] = 'LSB depth: the precision used is min(entry point width, OPUS_SET_LSB_DEPTH), identical for the integer and float entry points (decision chain of opus_encode_native)'
+        GROUPS.append(_h)
